@@ -42,12 +42,22 @@ class Viol:
 # ---------------------------------------------------------------------------------------------
 # worker pool
 
+# every scratch tree lives below a folder whose name holds characters that are special to glob, regular expressions, format
+# strings and XML: whatever the tool does with ABSOLUTE paths must treat them as plain text (VERIF_PLAIN_BASE=1 switches it off)
+ODD_LOCATION = "" if os.environ.get("VERIF_PLAIN_BASE") else "at [a-b] {0} %s &co"
+
+
 class Ctx:
     def __init__(self, tag="w", base=None):
+        self.top = None
         if base is not None:
             sub.rm(base)
             os.makedirs(base)
-        self.base = base or sub.new_scratch(tag)
+        else:
+            self.top = sub.new_scratch(tag)
+            base = os.path.join(self.top, ODD_LOCATION) if ODD_LOCATION else self.top
+            os.makedirs(base, exist_ok=True)
+        self.base = base
         self.root = os.path.join(self.base, "root")
         self.run = sub.Runner("in")
         self.n = 0
@@ -60,7 +70,7 @@ class Ctx:
         return p
 
     def close(self):
-        sub.rm(self.base)
+        sub.rm(self.top or self.base)
 
 
 _FUNC = {}
